@@ -99,7 +99,9 @@ func c15Contains(h, n string) bool {
 func c15HasPrefix(h, p string) bool { return len(h) >= len(p) && h[:len(p)] == p }
 func c15HasSuffix(h, p string) bool { return len(h) >= len(p) && h[len(h)-len(p):] == p }
 
-// c15CanonInt parses a canonical decimal integer (optional '-', no leading zeros, no "-0").
+// c15CanonInt parses a decimal integer written with digits only (optional '-'; leading zeros and "-0" are
+// fine: a digit string has one decimal value). Anything else - a '+', blanks, a base prefix, separators, a
+// fraction, an exponent, non-ASCII digits - has no pinned numeric reading and is not judged.
 func c15CanonInt(s string) (*big.Int, bool) {
 	if s == "" {
 		return nil, false
@@ -107,11 +109,8 @@ func c15CanonInt(s string) (*big.Int, bool) {
 	d := s
 	if d[0] == '-' {
 		d = d[1:]
-		if d == "0" {
-			return nil, false
-		}
 	}
-	if d == "" || (len(d) > 1 && d[0] == '0') {
+	if d == "" {
 		return nil, false
 	}
 	for i := 0; i < len(d); i++ {
@@ -292,7 +291,7 @@ func c15Want(s *c15Spec, in string) (want, judged bool, why string) {
 		a, ok1 := c15CanonInt(in)
 		b, ok2 := c15CanonInt(exp)
 		if !ok1 || !ok2 {
-			return false, false, "numeric operator on text that is not a canonical decimal integer"
+			return false, false, "numeric operator on text that is not a digits-only decimal integer"
 		}
 		if !c15InInt64(a) || !c15InInt64(b) {
 			return false, false, "numeric operator on an integer outside 64 bits"
